@@ -203,6 +203,25 @@ func (r *breader) readConst() (v Value) {
 	return v
 }
 
+// checkSize makes sure that a number of items read from the input, each taking
+// at least itemSize bytes of it, is plausible: it must not be negative and the
+// items must fit in what is left of the input (when that is known).  A corrupt
+// or crafted size must not make the reader allocate memory at will.
+func (r *breader) checkSize(n int64, itemSize int64) bool {
+	if r.err != nil {
+		return false
+	}
+	if n < 0 {
+		r.err = errInvalidSize
+		return false
+	}
+	if lr, ok := r.r.(interface{ Len() int }); ok && n > int64(lr.Len())/itemSize {
+		r.err = errInvalidSize
+		return false
+	}
+	return true
+}
+
 func (r *breader) readCode(c *Code) {
 	var sz int64
 	r.read(
@@ -211,18 +230,27 @@ func (r *breader) readCode(c *Code) {
 		&c.name,
 		&sz,
 	)
+	if !r.checkSize(sz, 4) {
+		return
+	}
 	c.code = make([]code.Opcode, sz)
 	r.read(
 		4*uint64(sz)+8,
 		c.code,
 		&sz,
 	)
+	if !r.checkSize(sz, 4) {
+		return
+	}
 	c.lines = make([]int32, sz)
 	r.read(
 		4*uint64(sz)+8,
 		c.lines,
 		&sz,
 	)
+	if !r.checkSize(sz, 1) {
+		return
+	}
 	c.consts = make([]Value, sz)
 	for i := range c.consts {
 		c.consts[i] = r.readConst()
@@ -234,6 +262,12 @@ func (r *breader) readCode(c *Code) {
 		&c.CellCount,
 		&sz,
 	)
+	if r.err == nil && (c.UpvalueCount < 0 || c.RegCount < 0 || c.CellCount < 0) {
+		r.err = errInvalidSize
+	}
+	if !r.checkSize(sz, 8) {
+		return
+	}
 	c.UpNames = make([]string, sz)
 	for i := range c.UpNames {
 		c.UpNames[i] = r.readString()
@@ -268,6 +302,9 @@ func (r *breader) readString() (s string) {
 		return
 	}
 	r.consumeBudget(uint64(sl))
+	if !r.checkSize(sl, 1) {
+		return
+	}
 	b := make([]byte, sl)
 	_, r.err = r.r.Read(b)
 	if r.err == nil {
@@ -287,3 +324,4 @@ func (r *breader) consumeBudget(amount uint64) {
 }
 
 var errInvalidValueType = errors.New("Invalid value type")
+var errInvalidSize = errors.New("Invalid size in binary chunk")
